@@ -26,6 +26,7 @@ from tornado.simple_httpclient import _HTTPConnection
 BODY = b"abcdefgh"
 CHUNKED = b"3\r\nabc\r\n2\r\nde\r\n0\r\n\r\n"      # decodes to b"abcde"; complete only if fully received
 CHUNKED_BODY = b"abcde"
+_TE_POOL = ("chunked", "Chunked", "CHUNKED", "gzip", "chunked, gzip", "gzip, chunked", " chunked", "identity", "")
 
 
 class _HdrStream(FakeStream):
@@ -71,21 +72,21 @@ def _digits(s):
     return len(s) > 0 and all(c in "0123456789" for c in s)
 
 
-def pre_fr(code: int, head: bool, cl: Optional[str], te: Optional[str], nb: int, maxb: int, interim: int) -> bool:
-    if not (200 <= code <= 599 and 0 <= nb <= P.NB and 0 <= maxb <= P.MB and 0 <= interim <= 2):
+def pre_fr(code: int, head: bool, cl: Optional[str], ti: int, nb: int, maxb: int, interim: int) -> bool:
+    if not (100 <= code <= 599 and 0 <= nb <= P.NB and 0 <= maxb <= P.MB and 0 <= interim <= 2):
         return False
     if cl is not None and len(cl) > P.LCL:
         return False
-    if te is not None and len(te) > 7:
+    if not 0 <= ti <= len(_TE_POOL):
         return False
-    return in_shard((0 if cl is None else 1 + len(cl)) + (P.LCL + 2) * (0 if te is None else 1) )
+    return in_shard((0 if cl is None else 1 + len(cl)) + (P.LCL + 2) * ((0 if ti == 0 else 1) + 2 * interim))
 
 
 @harness(
     pre=pre_fr,
-    quick=dict(NB=6, MB=6, LCL=2, timeout=150, reach_timeout=60),
-    thorough=dict(NB=8, MB=8, LCL=3, timeout=1200, reach_timeout=90),
-    nshards=dict(quick=8, thorough=10),
+    quick=dict(NB=2, MB=2, LCL=1, timeout=330, reach_timeout=90),
+    thorough=dict(NB=3, MB=3, LCL=3, timeout=1500, reach_timeout=120),
+    nshards=dict(quick=18, thorough=30),
     reach=["fixed_body_ok", "chunked_ok", "until_close_ok", "no_body_status", "rejected_framing", "truncated",
            "after_interim"],
     units=["http1connection.HTTP1Connection._read_message", "http1connection.HTTP1Connection._read_body",
@@ -94,22 +95,24 @@ def pre_fr(code: int, head: bool, cl: Optional[str], te: Optional[str], nb: int,
            "http1connection.parse_int", "httputil.parse_response_start_line", "httputil.HTTPHeaders.add"],
     stubs=["VLoop/FakeAio (vp/env.py), FakeStream (vp/fakestream.py: read contracts of C11)",
            "header blocks are handed over pre-delimited and pre-parsed: _parse_headers is replaced by a feeder that "
-           "returns the start line 'HTTP/1.1 <code> X' and an HTTPHeaders built with the real add() from the "
-           "symbolic Content-Length / Transfer-Encoding values (header-block parsing itself: C01/C06)",
-           "status code chosen by symbolic int 200..599 (start line text built per path), interim = 0: none, "
+           "returns an already parsed ResponseStartLine(code symbolic int 100..599) (parse_response_start_line is "
+           "bypassed: status-line grammar is the Engine-B obligation) and an HTTPHeaders built with the real add() "
+           "from the symbolic Content-Length / Transfer-Encoding values (header-block parsing itself: C01/C06)",
+           "interim = 0: none, "
            "1: '100 Continue' first, 2: a 100 that (illegally) carries Content-Length",
-           "body bytes on the wire are a concrete prefix of b'abcdefgh' (or of a fixed chunked encoding of "
-           "b'abcde') of symbolic length nb, followed by EOF"],
+           "body bytes on the wire are a concrete prefix of b'abcdefgh' of symbolic length nb (or a fixed chunked "
+           "encoding of b'abcde' with the last nb bytes missing), followed by EOF"],
     outside=["segmentation (composition with C11 through FakeStream's contract)", "chunk-size syntax (C01-4 twin)",
-             "header values longer than the bounds", "TLS / real sockets"],
+             "Content-Length values longer than LCL chars, Transfer-Encoding spellings outside the pool (the case-insensitive comparison on a free 7-char string costs 0.5 s/solver query)", "TLS / real sockets"],
 )
-def h_client_framing(code: int, head: bool, cl: Optional[str], te: Optional[str], nb: int, maxb: int, interim: int):
+def h_client_framing(code: int, head: bool, cl: Optional[str], ti: int, nb: int, maxb: int, interim: int):
     with install() as env:
+        te = None if ti == 0 else _TE_POOL[ti - 1]      # Transfer-Encoding value by symbolic index (0 = absent)
         chunked_wire = te is not None and te.lower() == "chunked"
         wire = (CHUNKED if chunked_wire else BODY)
-        if nb > len(wire):
-            nb = len(wire)
-        stream = _HdrStream(env.loop, incoming=wire[:nb], eof=True)
+        # nb = body bytes before EOF; for the chunked wire form nb counts the bytes MISSING at the end
+        cut = (len(wire) - nb) if chunked_wire else nb
+        stream = _HdrStream(env.loop, incoming=wire[:cut], eof=True)
         params = HTTP1ConnectionParameters(no_keep_alive=True, max_body_size=maxb)
         conn = HTTP1Connection(stream, True, params)
         conn._request_start_line = httputil.RequestStartLine("HEAD" if head else "GET", "/", "HTTP/1.1")
@@ -120,7 +123,7 @@ def h_client_framing(code: int, head: bool, cl: Optional[str], te: Optional[str]
             ih = httputil.HTTPHeaders()
             if interim == 2:
                 ih.add("Content-Length", "0")
-            stream.blocks.append(("HTTP/1.1 100 Continue", ih))
+            stream.blocks.append((httputil.ResponseStartLine("HTTP/1.1", 100, "Continue"), ih))
         fh = httputil.HTTPHeaders()
         try:
             if cl is not None:
@@ -129,17 +132,23 @@ def h_client_framing(code: int, head: bool, cl: Optional[str], te: Optional[str]
                 fh.add("Transfer-Encoding", te)
         except httputil.HTTPInputError:
             return                      # not a header value (CR/LF/NUL...): cannot appear in a parsed block
-        stream.blocks.append(("HTTP/1.1 %d X" % code, fh))
+        # the status code stays a solver variable: the start line is handed over already parsed
+        stream.blocks.append((httputil.ResponseStartLine("HTTP/1.1", code, "X"), fh))
         conn._parse_headers = lambda data: stream.blocks.pop(0)
         rec = _Rec()
-        task = env.spawn(conn.read_response(rec))
-        env.run_ready()
+        saved_parse = httputil.parse_response_start_line
+        httputil.parse_response_start_line = lambda line: line
+        try:
+            task = env.spawn(conn.read_response(rec))
+            env.run_ready()
+        finally:
+            httputil.parse_response_start_line = saved_parse
         assert task.done(), "read_response did not finish on a closed stream"
         exc = task.exception()
         ok = (exc is None) and task.result() is True
         # ---- strict reader (RFC 9112 6.3) on the same input
-        if interim == 2:
-            want = None                 # 1xx must not carry content
+        if interim == 2 or code < 200:
+            want = None                 # 1xx must not carry content / no final response follows the 1xx
         elif head or code == 304:
             want = b""
         elif te is not None:
@@ -148,7 +157,7 @@ def h_client_framing(code: int, head: bool, cl: Optional[str], te: Optional[str]
             elif code == 204:
                 want = None
             else:
-                want = CHUNKED_BODY if nb == len(CHUNKED) else None     # truncated chunked stream
+                want = CHUNKED_BODY if nb == 0 else None     # truncated chunked stream
                 if want is None:
                     reached("truncated")
         elif cl is not None:
